@@ -608,8 +608,10 @@ def run_lean(ctx, insts, name, stats, chunk=4000, precond="ruiz"):
             seen = 0
             for ln in o.splitlines():
                 k, _, v = ln.partition(" ")
-                nm, _, rest = k.partition(".1.")
-                if not rest: continue
+                mm = re.match(r"^(.+?)\.(\d+)\.(\S+)$", k)
+                if not mm: continue
+                nm, opno_, rest = mm.group(1), int(mm.group(2)), mm.group(3)
+                if opno_ != getattr(byname.get(nm), "solve_op", 1): continue
                 if rest in ("status", "iter", "primal_inf", "dual_inf", "primal_rel_inf", "dual_rel_inf", "no_primal_update", "no_dual_update", "x"):
                     cur.setdefault(nm, {})[rest] = v
             for nm, ob in cur.items():
@@ -623,6 +625,33 @@ def run_lean(ctx, insts, name, stats, chunk=4000, precond="ruiz"):
         ctx.coverage["evaluations"] = ctx.coverage.get("evaluations", 0) + len(part) * len(spine.ALL_BACKENDS)
     for it in insts: ctx.classes.add("grid " + it.family + " " + " ".join(it.tags) + " " + str(it.label))
     return nbad
+
+class UpdInst(Inst):
+    """the same labelled instance reached through update(): setup() on a different, harmless problem with the same sparsity patterns and
+    the same finite-bound pattern, then update(all blocks of the labelled instance, reuse on/off), then solve().  The verdict is judged
+    against the label of the UPDATED problem (the one the user posed last)."""
+    def __init__(self, it, rng):
+        Inst.__init__(self, "u" + it.name, it.family + "-via-update", it.kind, it.pb, it.cert, it.tags, it.settings)
+        self.label, self.check, self.accepted = it.label, it.check, it.accepted
+        B = it.pb; n, p, m = B["n"], B["p"], B["m"]
+        P = [row[:] for row in B["P"]]
+        for i in range(n): P[i][i] = Fr(P[i][i]) + rng.choice([1, 16, 400])
+        k = rng.choice([0, 1, 3])
+        A = dict(B, P=P, c=[Fr(v) + rng.randint(-2, 2) for v in B["c"]],
+                 h=[v if isinstance(v, str) else Fr(v) + k for v in B["h"]],
+                 lb=[v if isinstance(v, str) else Fr(v) - k for v in B["lb"]], ub=[v if isinstance(v, str) else Fr(v) + k for v in B["ub"]])
+        pa, pb_ = G.with_patterns(A), G.with_patterns(B)
+        pats = {key: sorted(set(pa[key]) | set(pb_[key])) for key in ("patP", "patA", "patG")}
+        self.pbA = dict(A, **pats); self.pbB = dict(B, **pats)
+        self.reuse = rng.random() < 0.5
+        self.presolve = rng.random() < 0.5
+        self.solve_op = 3 if self.presolve else 2
+        self.tags = list(it.tags) + ["update:reuse=%d" % self.reuse, "presolve=%d" % self.presolve]
+    def case(self):
+        ops = [G.op_setup(self.pbA)] + ([G.op_solve()] if self.presolve else []) + \
+              [G.op_update(self.pbB, {"P", "c", "A", "b", "G", "h", "lb", "ub"}, reuse=self.reuse), G.op_solve()]
+        return SS.Case(self.name, list(self.settings), ops, {0: self.pbA, self.solve_op: self.pbB},
+                       ["C03", self.family] + self.tags + ["s:" + ",".join("%s=%s" % kv for kv in self.settings)])
 
 # ---------------------------------------------------------------------------------------------- entry
 def run(ctx):
@@ -650,10 +679,13 @@ def run(ctx):
         ctx.ob("run:replay:%s:%s" % (b, pc), "harness", impl is not None, m1)
         if impl is not None:
             rc, o = vlib.run_bin(impl, cf)
-            ob = {}
+            per = {}
             for ln in o.splitlines():
-                k, _, v = ln.partition(" "); nm, _, rest = k.partition(".1.")
-                if rest: ob[rest] = v
+                k, _, v = ln.partition(" ")
+                mm = re.match(r"^(.+?)\.(\d+)\.(\S+)$", k)
+                if mm: per.setdefault(int(mm.group(2)), {})[mm.group(3)] = v
+            solves = [k_ for k_ in sorted(per) if "status" in per[k_]]
+            ob = per[solves[-1]] if solves else {}     # the verdict of the LAST solve (update histories: the solve after update())
             print("solve(): status %s after %s iterations (backend %s, preconditioner %s)" % (ob.get("status"), ob.get("iter"), b, pc))
             if it.label: judge(ctx, it, b, ob, stats, pc)
         ctx.notes.append("replay of %s" % ctx.replay)
@@ -704,6 +736,10 @@ def run(ctx):
     labS = [it for it in lab if it.label == "solvable"]; labO = [it for it in lab if it.label != "solvable"]
     run_families(ctx, labS, "c03fam", stats)
     run_lean(ctx, labO, "c03famo", stats)
+    # the same labelled instances reached through update() (sparse re-scaling, P in full storage, refreshed KKT blocks)
+    upd = [UpdInst(it, rng) for it in lab[::2]]
+    upd = [u for u in upd if all(Fr(v).denominator & (Fr(v).denominator - 1) == 0 for row in u.pbA["P"] for v in row)]
+    run_lean(ctx, upd, "c03upd", stats)
     run_families(ctx, labS[::3], "c03fami", stats, precond="identity")
     run_lean(ctx, labO[::3], "c03famoi", stats, precond="identity")
 
